@@ -9,8 +9,9 @@ for d in sorted(glob.glob('/verif/seeded/*/')):
     det = m.get('detected_by', {})
     files = sorted(set(re.findall(r'^\+\+\+ b/(\S+)', open(d + 'patch.diff').read(), re.M)))
     by = ', '.join(sorted(k for k in det if not k.startswith('_'))) or ('not run' if not det else 'none')
-    what = m['needs_to_manifest'].split(':')[0].split(';')[0]
-    rows.append((n, m['breaks_property'], ', '.join(f.replace('h3/src/', '') for f in files), what[:150], by))
+    what = m['needs_to_manifest']
+    what = what if len(what) <= 125 else what[:122].rsplit(' ', 1)[0] + ' …'
+    rows.append((n, m['breaks_property'], ', '.join(f.replace('h3/src/', '') for f in files), what, by))
 print('| change | aimed at | file | mechanism | reported by |\n|---|---|---|---|---|')
 for r in rows: print('| ' + ' | '.join(r) + ' |')
 print()
